@@ -9,6 +9,8 @@ LOG=/tmp/seedverify_${PROP}_$K.log
 exec >$LOG 2>&1
 cd $WT || exit 2
 git checkout -- src tests 2>/dev/null
+# the change is evaluated on top of /repo's CURRENT head (fix commits made since the worktree was created included)
+git checkout -q --detach $(git -C /repo rev-parse HEAD) || { echo "CHECKOUT-FAILED"; exit 2; }
 git apply $OUT/patch.diff || { echo "APPLY-FAILED"; exit 2; }
 echo "== build"; cargo build --offline 2>&1 | tail -2; cargo build --offline --features unstable 2>&1 | tail -2
 echo "== suite with change"
